@@ -95,6 +95,9 @@ def make_plan(tree, seed, i, tier="quick"):
     order = ["units", "constants", "noio", "version"]
     rng.shuffle(order)
     sel["opt_order"] = order
+    if rng.random() < 0.12:
+        # a header of the user's own project as an extra main file, including Au either way
+        sel["user_main"] = {"style": rng.choice(("quoted", "angled", "mixed")), "unit": rng.choice(tree.units)}
 
     env = {
         "listdir": {UNITS_DIR: _listdir_spec(rng), CONSTANTS_DIR: _listdir_spec(rng)},
@@ -398,11 +401,20 @@ def singles(tree, seed):
                 "selection": {"units": [name] if kind == "units" else [], "constants": [name] if kind == "constants" else [], "io": bool(n % 2), "main_files": [], "version_id": "single", "opt_order": ["units", "constants", "noio", "version"]},
                 "env": {"listdir": {}, "listdir_default": _listdir_spec(rng), "extra_entries": {}, "clock": ["2026-09-26T12:00:00"], "git": "ok:single", "stdout_mode": "block", "stdout_bufsize": 4096, "crlf": False},
                 "faults": [],
-                "toolchain": {"a": list(tcs[n % len(tcs)])},
+                "toolchain": _single_toolchains(tcs[n % len(tcs)]),
                 "probe": {"include_order": rng.randrange(1 << 30), "api": []},
             })
             n += 1
     return plans
+
+
+def _single_toolchains(a):
+    """Every unit and constant alone is built under two configurations that differ in compiler and
+    in standard, one of them C++14 (where C++17's implicit `inline` does not paper over a missing
+    or duplicated definition)."""
+    other = "clang++" if a[0] == "g++" else "g++"
+    b = (other, "c++14") if a[1] != "c++14" else (other, "c++20")
+    return {"a": list(a), "b": list(b), "b_variant": "multi"}
 
 
 # ------------------------------------------------------------------------------------------------
@@ -546,6 +558,9 @@ def cli_shape_plans(tree, seed, tier):
             {"units": [u2], "constants": [], "io": True, "main_files": ["au/io.hh", "au/math.hh"]},
             {"units": [u2], "constants": [], "io": False, "main_files": ["au/io.hh"]},
             {"units": "ALL", "constants": [c1], "io": True, "main_files": ["au/units/%s.hh" % u1]},
+            {"units": [u1], "constants": [], "io": True, "user_main": {"style": "quoted", "unit": u2}},
+            {"units": [], "constants": [], "io": False, "user_main": {"style": "angled", "unit": u3}},
+            {"units": [u2], "constants": [c1], "io": True, "user_main": {"style": "mixed", "unit": u2}},
         ]
     # a name that exists both as a unit and as a constant (standard_gravity today), asked for as both
     for both in sorted(set(tree.units) & set(tree.constants)):
